@@ -232,6 +232,20 @@ func dqOrDefault(dq string) string {
 }
 
 func c10Work(w *h.W) {
+	// S7: a clause asserted and looked up again WITHIN one query, the query's still unbound variables reappearing at
+	// other positions of the clause/2, retract/1 pattern (the stored clause is renamed apart from its asserting query)
+	if w.Mine() {
+		pc := &h.ProgCase{Steps: []h.ProgStep{h.Consult(rd(":- dynamic(h/2)"), rd(":- dynamic(k/1)"))}}
+		for _, q := range []string{
+			"assertz(h(X, a)), retract(h(b, X))", "assertz(h(X, a)), clause(h(b, X), true)", "assertz(h(X, Y)), retract(h(Y, X)), X = 1", "assertz(h(X, X)), retract(h(1, Y))",
+			"assertz((k(X) :- h(X, Y))), retract((k(Y) :- h(Y, X)))", "assertz((k(X) :- h(X, Y))), clause(k(Y), B)", "assertz(h(f(X), a)), retract(h(f(b), X))",
+			"assertz(h([X|T], T)), retract(h([a, b], X))", "assertz(h(X, a)), X = c, retract(h(b, Z))", "assertz(h(X, a)), retractall(h(b, X)), findall(P-Q, h(P, Q), L)",
+			"findall(P-Q, clause(h(P, Q), true), L)",
+		} {
+			pc.Steps = append(pc.Steps, h.Query(rd(q), 5))
+		}
+		runProgCase(w, "S7 same-query", pc, 1)
+	}
 	// S6: the number of clauses of a predicate swept 1..24 (40), first head arguments of every kind, loaded and
 	// asserted, called with every first argument in every representation (shared with C01 F7)
 	clauseCountSweep(w, "S6 clause-count")
@@ -477,7 +491,7 @@ func c10Replay(b []byte) (string, string, bool) {
 func init() {
 	h.Register(&h.Check{
 		ID: "C10",
-		Rule: "all clause terms of the enumerated families: S1 facts h(T) for every T of a universe of argument terms (all terms of depth <= 1 over {a,X,Y,[],\"ab\",f/1,g/2} with lists in bracket, [H|T], './2 and string notation, plus one more level around each); S2 rules h(T1,R) :- e(T2,R) for pairs of universe terms; S3 hand-picked shapes (two body goals, variable goals, top-level disjunctions, if-then-else, cuts, 17+ variables, strings under each double_quotes flag); S4 16 clause shapes x 13 bindings made in the asserting query before assertz (incl. variables inside list elements), observed from later queries; each through Exec and through assertz; S5 every clause of bootstrap.pl. Non-trivial = decided case; distinct = case text. S6: the number of clauses of one predicate swept 1..24 (40) with first head arguments of every kind (atoms, numbers, strings, lists, compounds, variables, non-ASCII), loaded and asserted, called with 29 first arguments in every representation.",
+		Rule: "all clause terms of the enumerated families: S1 facts h(T) for every T of a universe of argument terms (all terms of depth <= 1 over {a,X,Y,[],\"ab\",f/1,g/2} with lists in bracket, [H|T], './2 and string notation, plus one more level around each); S2 rules h(T1,R) :- e(T2,R) for pairs of universe terms; S3 hand-picked shapes (two body goals, variable goals, top-level disjunctions, if-then-else, cuts, 17+ variables, strings under each double_quotes flag); S4 16 clause shapes x 13 bindings made in the asserting query before assertz (incl. variables inside list elements), observed from later queries; each through Exec and through assertz; S5 every clause of bootstrap.pl. Non-trivial = decided case; distinct = case text. S6: the number of clauses of one predicate swept 1..24 (40) with first head arguments of every kind (atoms, numbers, strings, lists, compounds, variables, non-ASCII), loaded and asserted, called with 29 first arguments in every representation. S7: 11 queries that assert a clause and look it up again (clause/2, retract/1, retractall/1) within the same query with the query's unbound variables at other positions of the pattern.",
 		Explanation: "state = a fresh real interpreter with the clause added through one path; transitions = (1) clause/2 listing, (2) calls with every argument pattern, compared with the reference machine executing the SOURCE term, and (3) decompilation of the stored bytecode (read through a verif-tagged accessor injected with -overlay) by an independent inverse of the clause compiler, compared with the source term up to variable renaming",
 		Assumptions: []string{"clause/2 bodies are compared modulo call(V) ~ V for an unbound goal variable (ISO stores call(V); the property asks for a variant of the given term)", "bootstrap.pl is read by the harness's own reader (fixed operator table) - not by the implementation's parser"},
 		Work:        c10Work,
